@@ -273,7 +273,7 @@ func execRelationalExprLessThan(context *exprContext, expr *grammar.Grammar) err
 	if leftNodeSetOk && rightNodeSetOk {
 		for _, leftNode := range leftNodeSet {
 			for _, rightNode := range rightNodeSet {
-				if GetCursorString(leftNode) < GetCursorString(rightNode) {
+				if getStringNumber(GetCursorString(leftNode)) < getStringNumber(GetCursorString(rightNode)) {
 					context.result = Bool(true)
 					return nil
 				}
@@ -316,7 +316,7 @@ func execRelationalExprLessThan(context *exprContext, expr *grammar.Grammar) err
 
 	if leftStringOk && rightNodeSetOk {
 		for _, rightNode := range rightNodeSet {
-			if leftString < String(GetCursorString(rightNode)) {
+			if leftString.Number() < getStringNumber(GetCursorString(rightNode)) {
 				context.result = Bool(true)
 				return nil
 			}
@@ -330,7 +330,7 @@ func execRelationalExprLessThan(context *exprContext, expr *grammar.Grammar) err
 
 	if leftNodeSetOk && rightStringOk {
 		for _, leftNode := range leftNodeSet {
-			if String(GetCursorString(leftNode)) < rightString {
+			if getStringNumber(GetCursorString(leftNode)) < rightString.Number() {
 				context.result = Bool(true)
 				return nil
 			}
@@ -340,7 +340,7 @@ func execRelationalExprLessThan(context *exprContext, expr *grammar.Grammar) err
 		return nil
 	}
 
-	context.result = Bool(left.Number() < right.Number())
+	context.result = Bool(relationalNumber(left) < relationalNumber(right))
 	return nil
 }
 
@@ -357,7 +357,7 @@ func execRelationalExprLessThanOrEqual(context *exprContext, expr *grammar.Gramm
 	if leftNodeSetOk && rightNodeSetOk {
 		for _, leftNode := range leftNodeSet {
 			for _, rightNode := range rightNodeSet {
-				if GetCursorString(leftNode) <= GetCursorString(rightNode) {
+				if getStringNumber(GetCursorString(leftNode)) <= getStringNumber(GetCursorString(rightNode)) {
 					context.result = Bool(true)
 					return nil
 				}
@@ -400,7 +400,7 @@ func execRelationalExprLessThanOrEqual(context *exprContext, expr *grammar.Gramm
 
 	if leftStringOk && rightNodeSetOk {
 		for _, rightNode := range rightNodeSet {
-			if leftString <= String(GetCursorString(rightNode)) {
+			if leftString.Number() <= getStringNumber(GetCursorString(rightNode)) {
 				context.result = Bool(true)
 				return nil
 			}
@@ -414,7 +414,7 @@ func execRelationalExprLessThanOrEqual(context *exprContext, expr *grammar.Gramm
 
 	if leftNodeSetOk && rightStringOk {
 		for _, leftNode := range leftNodeSet {
-			if String(GetCursorString(leftNode)) <= rightString {
+			if getStringNumber(GetCursorString(leftNode)) <= rightString.Number() {
 				context.result = Bool(true)
 				return nil
 			}
@@ -424,7 +424,7 @@ func execRelationalExprLessThanOrEqual(context *exprContext, expr *grammar.Gramm
 		return nil
 	}
 
-	context.result = Bool(left.Number() <= right.Number())
+	context.result = Bool(relationalNumber(left) <= relationalNumber(right))
 	return nil
 }
 
@@ -441,7 +441,7 @@ func execRelationalExprGreaterThan(context *exprContext, expr *grammar.Grammar) 
 	if leftNodeSetOk && rightNodeSetOk {
 		for _, leftNode := range leftNodeSet {
 			for _, rightNode := range rightNodeSet {
-				if GetCursorString(leftNode) > GetCursorString(rightNode) {
+				if getStringNumber(GetCursorString(leftNode)) > getStringNumber(GetCursorString(rightNode)) {
 					context.result = Bool(true)
 					return nil
 				}
@@ -484,7 +484,7 @@ func execRelationalExprGreaterThan(context *exprContext, expr *grammar.Grammar) 
 
 	if leftStringOk && rightNodeSetOk {
 		for _, rightNode := range rightNodeSet {
-			if leftString > String(GetCursorString(rightNode)) {
+			if leftString.Number() > getStringNumber(GetCursorString(rightNode)) {
 				context.result = Bool(true)
 				return nil
 			}
@@ -498,7 +498,7 @@ func execRelationalExprGreaterThan(context *exprContext, expr *grammar.Grammar) 
 
 	if leftNodeSetOk && rightStringOk {
 		for _, leftNode := range leftNodeSet {
-			if String(GetCursorString(leftNode)) > rightString {
+			if getStringNumber(GetCursorString(leftNode)) > rightString.Number() {
 				context.result = Bool(true)
 				return nil
 			}
@@ -508,7 +508,7 @@ func execRelationalExprGreaterThan(context *exprContext, expr *grammar.Grammar) 
 		return nil
 	}
 
-	context.result = Bool(left.Number() > right.Number())
+	context.result = Bool(relationalNumber(left) > relationalNumber(right))
 	return nil
 }
 
@@ -525,7 +525,7 @@ func execRelationalExprGreaterThanOrEqual(context *exprContext, expr *grammar.Gr
 	if leftNodeSetOk && rightNodeSetOk {
 		for _, leftNode := range leftNodeSet {
 			for _, rightNode := range rightNodeSet {
-				if GetCursorString(leftNode) >= GetCursorString(rightNode) {
+				if getStringNumber(GetCursorString(leftNode)) >= getStringNumber(GetCursorString(rightNode)) {
 					context.result = Bool(true)
 					return nil
 				}
@@ -568,7 +568,7 @@ func execRelationalExprGreaterThanOrEqual(context *exprContext, expr *grammar.Gr
 
 	if leftStringOk && rightNodeSetOk {
 		for _, rightNode := range rightNodeSet {
-			if leftString >= String(GetCursorString(rightNode)) {
+			if leftString.Number() >= getStringNumber(GetCursorString(rightNode)) {
 				context.result = Bool(true)
 				return nil
 			}
@@ -582,7 +582,7 @@ func execRelationalExprGreaterThanOrEqual(context *exprContext, expr *grammar.Gr
 
 	if leftNodeSetOk && rightStringOk {
 		for _, leftNode := range leftNodeSet {
-			if String(GetCursorString(leftNode)) >= rightString {
+			if getStringNumber(GetCursorString(leftNode)) >= rightString.Number() {
 				context.result = Bool(true)
 				return nil
 			}
@@ -592,6 +592,16 @@ func execRelationalExprGreaterThanOrEqual(context *exprContext, expr *grammar.Gr
 		return nil
 	}
 
-	context.result = Bool(left.Number() >= right.Number())
+	context.result = Bool(relationalNumber(left) >= relationalNumber(right))
 	return nil
+}
+
+// relationalNumber converts an operand that was not paired with a number or a
+// string: a NodeSet compared with a boolean is converted to a boolean first.
+func relationalNumber(r Result) float64 {
+	if nodeSet, ok := r.(NodeSet); ok {
+		return Bool(nodeSet.Bool()).Number()
+	}
+
+	return r.Number()
 }
